@@ -1546,6 +1546,8 @@ class AdvancedTag(object):
                 @return - The attribute value, or None if none exists.
         '''
 
+        attrName = attrName.lower()
+
         if attrName in TAG_ITEM_BINARY_ATTRIBUTES:
             if attrName in self._attributes:
                 attrVal = self._attributes[attrName]
